@@ -372,7 +372,11 @@ MUTANTS = [
     Mutant('conditional-forgets-else-defines', FILE,
            "defines_symbols=defines|else_defines, uses_symbols=uses, **kwargs)",
            "defines_symbols=defines, uses_symbols=uses, **kwargs)", expect=('R2', 'Conditional.else_body')),
-    Mutant('intent-inout-not-written', FILE, "in ('inout', 'out')]", "in ('out',)]", expect=('R3', 'outvals:inout')),
+    Mutant('intent-inout-not-written', FILE, "in ('inout', 'out', 'none')]", "in ('out', 'none')]", expect=('R3', 'outvals:inout')),
+    Mutant('intent-none-not-read', FILE, "in ('inout', 'in', 'none')]", "in ('inout', 'in')]", expect=('R3', 'invals:none')),
+    Mutant('where-alternatives-chained', FILE, "            _b, _d, uses = self._visit_body(b, live=live, uses=uses, **kwargs)\n            body += (_b,)\n            defines |= _d\n",
+           "            _b, defines, uses = self._visit_body(b, live=live, uses=uses, defines=defines, **kwargs)\n            body += (_b,)\n", expect=('R5', 'visit_MaskedStatement')),
+    Mutant('allocate-stat-dropped', FILE, "        if o.status_var is not None:\n            defines |= self._symbols_from_expr(o.status_var)\n", "", expect=('R2', 'Allocation.status_var')),
     Mutant('visit-body-order', FILE,
            "            uses |= visited[-1].uses_symbols.copy() - defines\n            defines |= visited[-1].defines_symbols.copy()",
            "            defines |= visited[-1].defines_symbols.copy()\n            uses |= visited[-1].uses_symbols.copy() - defines",
@@ -386,8 +390,8 @@ MUTANTS = [
            "        body, defines, uses = self._visit_body(o.body, live=live, **kwargs)",
            expect=('R2', 'WhileLoop.condition')),
     Mutant('case-branches-sequential', FILE,
-           "            _b, _d, uses = self._visit_body(b, live=live, uses=uses, **kwargs)\n",
-           "            _b, _d, _u = self._visit_body(b, live=live, **kwargs)\n            uses |= _u - defines\n",
+           "            _b, _d, uses = self._visit_body(b, live=live, uses=uses, **kwargs)\n            body += (as_tuple(_b),)\n",
+           "            _b, _d, _u = self._visit_body(b, live=live, **kwargs)\n            uses |= _u - defines\n            body += (as_tuple(_b),)\n",
            expect=('R5', 'visit_MultiConditional')),
     Mutant('dims-from-invals', FILE, "arrays = [v for v in FindVariables().visit(outvals) if isinstance(v, Array)]",
            "arrays = [v for v in FindVariables().visit(outvals + invals) if isinstance(v, Array)]", expect=('R6', 'kill-set')),
